@@ -109,6 +109,16 @@ Theorem C28_store_sample : forall c t0 ops,
 Proof. exact Proof.C28.store_sample. Qed.
 Print Assumptions C28_store_sample.
 
+(* get_full (the read not cut short by n) is not a separate definition of convenience: it is what
+   the loop returns, for any window order, whenever n is at least the number of visible members *)
+Theorem C28_full_read_is_loop : forall c d h t n orc,
+  (forall x, In x (concat orc) <-> In x (visible_members c d h t)) ->
+  Z.of_nat (length (concat orc)) <= n ->
+  exists res, sample_run n [] orc = Some res /\ nodup_ident res = true /\
+              forall p, In p res <-> In p (collapse (decode_all (visible_members c d h t))).
+Proof. exact Proof.C28_store.full_read_is_loop. Qed.
+Print Assumptions C28_full_read_is_loop.
+
 Theorem C28_legal_sample_means : forall n entries res,
   legal_sample n entries res = true ->
   Z.of_nat (length res) <= Z.max n 0 /\ nodup_ident res = true /\ incl res entries.
